@@ -84,10 +84,10 @@ Qed.
 
 Lemma sc_handle_wf : forall v c now s fc acd dfc address msg uds udl, 0 <= alen c <= 2 ->
   outs_wf (alen c) (snd (sc_handle v c now s fc acd dfc address msg uds udl)).
-Proof. intros. unfold outs_wf, sc_handle, sc_set_state, reset_frame. Time crush H. Qed.
+Proof. intros. unfold outs_wf, sc_handle, sc_set_state, reset_frame. crush H. Qed.
 
 Lemma sc_run_wf : forall v c now s, 0 <= alen c <= 2 -> outs_wf (alen c) (snd (sc_run v c now s)).
-Proof. intros. unfold outs_wf, sc_run, sc_set_state, reset_frame. Time crush H. Qed.
+Proof. intros. unfold outs_wf, sc_run, sc_set_state, reset_frame. crush H. Qed.
 
 Lemma pu_handle_wf : forall v c now p fc acd dfc address msg uds udl, 0 <= alen c <= 2 ->
   outs_wf (alen c) (snd (pu_handle v c now p fc acd dfc address msg uds udl)).
